@@ -1,8 +1,10 @@
 """C15 -- piece-aligned v1 metafiles: padding entries account exactly for the pieces."""
 import os
+import json
 
 import core
 import trees
+import modelrun
 from ref import oracle
 from props import c01
 
@@ -35,6 +37,61 @@ def entries_impl(tmp, sizes, pl):
     return t
 
 
+def judge_metafile(raw, root, tree, pl, single):
+    """the property on one written metafile, against the files as they are on disk; returns (problems, order of the payload entries)"""
+    try:
+        meta = oracle.bdecode_strict(raw)
+    except Exception:  # noqa
+        import pyben
+        meta = c01._to_bytes(pyben.loads(raw))
+    info = meta[b"info"]
+    problems = []
+    if single:
+        data = oracle.read(root)
+        if info.get(b"length") != len(data) or b"files" in info:
+            problems.append("single file: length/files wrong")
+        stream = data
+        order = None
+    else:
+        stream, off, order = b"", 0, []
+        files = info.get(b"files", [])
+        payload_listed = []
+        for j, f in enumerate(files):
+            ln = f[b"length"]
+            is_pad = f.get(b"attr") == b"p"
+            if is_pad:
+                if j == 0 or files[j - 1].get(b"attr") == b"p":
+                    problems.append(f"padding entry {j} does not follow a payload file")
+                gap = -off % pl
+                if ln != gap or ln == 0:
+                    problems.append(f"padding entry {j} has length {ln}, gap to the next boundary is {gap}")
+                if f.get(b"path") != [b".pad", str(ln).encode()]:
+                    problems.append(f"padding entry {j} path {f.get(b'path')}")
+                stream += bytes(ln)
+            else:
+                comps = tuple(c.decode() for c in f[b"path"])
+                if off % pl != 0:
+                    problems.append(f"file {'/'.join(comps)} starts at offset {off}, not on a piece boundary")
+                p = os.path.join(root, *comps)
+                data = oracle.read(p) if os.path.isfile(p) else b""
+                if ln != len(data):
+                    problems.append(f"file {'/'.join(comps)} listed with length {ln}, on disk {len(data)}")
+                stream += data
+                payload_listed.append(comps)
+                order.append(comps)
+            off += ln
+        if sorted(payload_listed) != sorted(tree):
+            problems.append("payload entries differ from the files on disk")
+        npieces = len(info.get(b"pieces", b"")) // 20
+        if -(-off // pl) != npieces:
+            problems.append(f"listed lengths account for {-(-off // pl)} pieces, {npieces} recorded")
+    if info.get(b"pieces") != b"".join(oracle.v1_pieces(stream, pl)):
+        problems.append("pieces != SHA-1 hashing of the stream in which padding is zero bytes")
+    if info.get(b"piece length") != pl:
+        problems.append("piece length")
+    return problems, order
+
+
 def e2e(ctx):
     n = 40 if ctx.tier == "quick" else 600
     core.use_repo_in_process()
@@ -59,56 +116,7 @@ def e2e(ctx):
                 ctx.fail("create-raised", {"tree": trees.tree_summary(tree), "piece_length": pl, "cli": via_cli},
                          "a metafile", f"{type(e).__name__}: {e}")
                 continue
-            try:
-                meta = oracle.bdecode_strict(raw)
-            except Exception:  # noqa
-                import pyben
-                meta = c01._to_bytes(pyben.loads(raw))
-            info = meta[b"info"]
-            problems = []
-            if single:
-                data = oracle.read(root)
-                if info.get(b"length") != len(data) or b"files" in info:
-                    problems.append("single file: length/files wrong")
-                stream = data
-                order = None
-            else:
-                stream, off, order = b"", 0, []
-                files = info.get(b"files", [])
-                payload_listed = []
-                for j, f in enumerate(files):
-                    ln = f[b"length"]
-                    is_pad = f.get(b"attr") == b"p"
-                    if is_pad:
-                        if j == 0 or files[j - 1].get(b"attr") == b"p":
-                            problems.append(f"padding entry {j} does not follow a payload file")
-                        gap = -off % pl
-                        if ln != gap or ln == 0:
-                            problems.append(f"padding entry {j} has length {ln}, gap to the next boundary is {gap}")
-                        if f.get(b"path") != [b".pad", str(ln).encode()]:
-                            problems.append(f"padding entry {j} path {f.get(b'path')}")
-                        stream += bytes(ln)
-                    else:
-                        comps = tuple(c.decode() for c in f[b"path"])
-                        if off % pl != 0:
-                            problems.append(f"file {'/'.join(comps)} starts at offset {off}, not on a piece boundary")
-                        p = os.path.join(root, *comps)
-                        data = oracle.read(p) if os.path.isfile(p) else b""
-                        if ln != len(data):
-                            problems.append(f"file {'/'.join(comps)} listed with length {ln}, on disk {len(data)}")
-                        stream += data
-                        payload_listed.append(comps)
-                        order.append(comps)
-                    off += ln
-                if sorted(payload_listed) != sorted(tree):
-                    problems.append("payload entries differ from the files on disk")
-                npieces = len(info.get(b"pieces", b"")) // 20
-                if -(-off // pl) != npieces:
-                    problems.append(f"listed lengths account for {-(-off // pl)} pieces, {npieces} recorded")
-            if info.get(b"pieces") != b"".join(oracle.v1_pieces(stream, pl)):
-                problems.append("pieces != SHA-1 hashing of the stream in which padding is zero bytes")
-            if info.get(b"piece length") != pl:
-                problems.append("piece length")
+            problems, order = judge_metafile(raw, root, tree, pl, single)
             if problems:
                 ctx.fail("aligned-metafile", {"tree": trees.tree_summary(tree), "piece_length": pl, "cli": via_cli},
                          "C15", problems[:6])
@@ -156,6 +164,148 @@ def run(ctx, model_ok):
     e2e(ctx)
 
 
+# --------------------------------------------------------------------------- replay
+def tree_from_summary(summary):
+    """trees.tree_summary -> tree; the contents (random per run in the search) are regenerated from (index, size): the judge
+       compares the metafile with reference hashing of the same bytes on disk, so only names and sizes matter"""
+    import random
+    tree = {}
+    for i, (name, size) in enumerate(sorted(summary.items())):
+        comps = () if name == "<single>" else tuple(name.split("/"))
+        tree[comps] = random.Random(f"C15:{i}:{size}").randbytes(size)
+    return tree
+
+
+def _replay_e2e(inp, tmp):
+    core.use_repo_in_process()
+    from torrentfile.cli import execute
+    tree, pl, via_cli = tree_from_summary(inp["tree"]), inp["piece_length"], bool(inp.get("cli"))
+    single = list(tree) == [()]
+    root = os.path.join(tmp, "c", "payload.bin" if single else "payload")
+    trees.write_tree(root, tree)
+    out = os.path.join(tmp, "c", "o.torrent")
+    print(f"[C15 replay] tree {json.dumps(inp['tree'], ensure_ascii=False)}, piece length {pl}, "
+          + ("`torrentfile create --align`" if via_cli else "TorrentFile(align=True)"))
+    try:
+        if via_cli:
+            trees.quiet(execute, ["create", "--align", "--piece-length", str(pl), "-o", out, "--prog", "0", root])
+            raw = oracle.read(out)
+        else:
+            raw = trees.create("v1-align", root, out, pl)
+    except Exception as e:  # noqa
+        print(f"[C15 replay] VIOLATION create-raised: {type(e).__name__}: {e}")
+        return 1
+    problems, _ = judge_metafile(raw, root, tree, pl, single)
+    try:
+        import pyben
+        info = pyben.loads(raw)["info"]
+        listed = [("pad " if f.get("attr") == "p" else "/".join(f["path"]) + " ") + str(f["length"]) for f in info.get("files", [])]
+        print(f"[C15 replay] implementation: entries {listed or ['single file, length ' + str(info.get('length'))]}, "
+              f"{len(info['pieces']) // 20} pieces")
+    except Exception as e:  # noqa
+        print("[C15 replay] implementation: metafile not readable by pyben:", e)
+    for pr in problems:
+        print("[C15 replay] VIOLATION aligned-metafile:", pr)
+    if not problems:
+        print("[C15 replay] judge: pad entries are exactly the gaps, every file starts on a boundary, pieces = reference hashing of the padded stream")
+    return 1 if problems else 0
+
+
+def _replay_hasher(sizes, pl, align, tmp, with_model):
+    datas = [c01.small_data(i, s) for i, s in enumerate(sizes)]
+    d = os.path.join(tmp, f"h{len(os.listdir(tmp))}")
+    os.makedirs(d)
+    try:
+        got = c01.hasher_impl(d, sizes, pl, align, datas)
+    except Exception as e:  # noqa
+        print(f"[C15 replay] VIOLATION Hasher raised on sizes {sizes}, piece length {pl}: {type(e).__name__}: {e}")
+        return 1
+    exp = c01.ref_v1(datas, pl, align)
+    print(f"[C15 replay] Hasher(align={align}) on sizes {sizes}, piece length {pl}:\n   implementation {[h.hex() for h in got][:8]}\n"
+          f"   reference      {[h.hex() for h in exp][:8]}")
+    rc = 0
+    if got != exp:
+        print("[C15 replay] VIOLATION hasher-vs-bep3-align: digests differ from the reference hashing of the zero-padded stream")
+        rc = 1
+    if with_model:
+        outs = modelrun.run("hasher", [("1" if align else "0", str(pl), ",".join(x.hex() for x in datas))])
+        if outs is None:
+            print("[C15 replay] cannot evaluate: the extracted hasher driver failed to run (./check --setup)")
+            return rc or 2
+        same = outs[0] == b"".join(got).hex()
+        print("[C15 replay] Model/Hasher.v: " + ("model and implementation agree" if same else f"model and implementation DISAGREE (model {outs[0][:120]})"))
+        rc = rc or (0 if same else 1)
+    return rc
+
+
+def _replay_entries(sizes, pl, tmp):
+    d = os.path.join(tmp, f"p{len(os.listdir(tmp))}")
+    trees.write_tree(d, {(f"f{i:03d}",): bytes(s) for i, s in enumerate(sizes)})
+    try:
+        raw = trees.create("v1-align", d, d + ".torrent", pl)
+        import pyben
+        files = pyben.loads(raw)["info"]["files"]
+    except Exception as e:  # noqa
+        print(f"[C15 replay] VIOLATION create-raised on sizes {sizes}, piece length {pl}: {type(e).__name__}: {e}")
+        return 1
+    impl = ",".join(("p" if f.get("attr") == "p" else "f") + str(f["length"]) for f in files) or "-"
+    outs = modelrun.run("entries", [("1", str(pl), ",".join(str(x) for x in sizes))])
+    if outs is None:
+        print("[C15 replay] cannot evaluate: the extracted hasher driver failed to run (./check --setup)")
+        return 2
+    print(f"[C15 replay] entry list for sizes {sizes}, piece length {pl}:\n   TorrentFile.assemble {impl}\n   Model v1_entries     {outs[0]}")
+    print("[C15 replay] " + ("model and implementation agree" if outs[0] == impl else "model and implementation DISAGREE"))
+    return 0 if outs[0] == impl else 1
+
+
 def replay(ctx, data):
-    print(data)
-    return 0
+    """rebuilds the recorded tree / size tuple, runs creator (or Hasher), reference and model again; 1 violated, 0 holds, 2 cannot rebuild"""
+    from props import c17
+    kind = str(data.get("kind"))
+    inp = data.get("input") if isinstance(data.get("input"), dict) else {}
+    print(f"[C15 replay] kind={kind} implementation under test: {core.REPO}")
+    rcs = []
+
+    def cannot(k, why):
+        print(f"replay: cannot rebuild input of kind {k} ({why})")
+        return 2
+    with core.Scratch("vc15r_") as tmp:
+        os.environ["HOME"] = tmp
+        if data.get("finding") or data.get("reproducer"):
+            rcs.append(c17.replay_finding("C15", data))
+        elif kind in ("aligned-metafile", "create-raised"):
+            if not isinstance(inp.get("tree"), dict) or "piece_length" not in inp:
+                rcs.append(cannot(kind, "no tree description recorded"))
+            else:
+                rcs.append(_replay_e2e(inp, tmp))
+        elif kind.startswith("hasher-vs-bep3"):
+            if "sizes" not in inp or "piece_length" not in inp:
+                rcs.append(cannot(kind, "no size tuple recorded"))
+            else:
+                rcs.append(_replay_hasher(list(inp["sizes"]), inp["piece_length"], bool(inp.get("align", True)), tmp, with_model=False))
+        elif kind == "proof-or-correspondence-broken" or "what" in data:
+            dis = data.get("disagreements") or ([data] if "what" in data else [])
+            for d in dis[:5]:
+                di = d.get("input") if isinstance(d.get("input"), dict) else {}
+                what = str(d.get("what", ""))
+                if what.startswith("Model/Hasher.v vs hasher.Hasher") and "files_hex" in di:
+                    if len(di["files_hex"]) >= 200:
+                        rcs.append(cannot("disagreement Model/Hasher.v vs hasher.Hasher", "the recorded file contents are truncated to 100 bytes"))
+                        continue
+                    sizes = [len(x) // 2 for x in di["files_hex"].split(",")]
+                    rcs.append(_replay_hasher(sizes, int(di["pl"]), di.get("align") == "1", tmp, with_model=True))
+                elif what.startswith("Model/Hasher.v v1_entries") and "sizes" in di:
+                    rcs.append(_replay_entries([int(x) for x in di["sizes"].split(",")], int(di["pl"]), tmp))
+                else:
+                    rcs.append(cannot("disagreement " + repr(what), "unknown correspondence"))
+            if data.get("broken"):
+                rcs.append(c17.replay_broken(ctx, "C15", data["broken"]))
+            if not dis and not data.get("broken"):
+                print("[C15 replay] the file records neither a disagreement nor a broken obligation: nothing to replay")
+                rcs.append(2)
+        else:
+            rcs.append(cannot(kind, "unknown kind"))
+    rc = 1 if 1 in rcs else (2 if 2 in rcs or not rcs else 0)
+    print("[C15 replay] verdict:", {0: "the property holds on this input", 1: "property VIOLATED on this input",
+                                    2: "could not be replayed exactly"}[rc])
+    return rc
